@@ -805,9 +805,10 @@ Section MsProofs.
     (forall e, In e evs -> ok (ev_time e)) ->
     n = List.length (g_demes g) /\ WellNumbered n evs.
   Proof.
-    intros V Hgt H Hev. unfold to_ms_events in H. mbind H g' Hg'. cbv zeta in H.
-    mbind H sz Hsz. mbind H sj Hsj. mbind H off Hoff. mbind H on Hon. mbind H evs' Hevs.
-    injection H as <- <-.
+    intros V Hgt H Hev. unfold to_ms_events in H. mbind H r Hr. cbv zeta in H. mbind H evs' Hevs.
+    unfold to_ms_unscaled in Hr. mbind Hr g' Hg'. cbv zeta in Hr.
+    mbind Hr sz Hsz. mbind Hr sj Hsj. mbind Hr off Hoff. mbind Hr on Hon.
+    injection Hr as <-. cbn [fst snd] in H, Hevs. injection H as <- <-.
     specialize (Hgt g' Hg').
     destruct (ingen_spec _ _ Hg') as (_ & _ & _ & _ & _ & _ & RD & RM & RP).
     pose proof (Forall2_length' _ _ _ RD) as Hlen.
@@ -914,11 +915,15 @@ Section MsProofs.
     - destruct (IH x Hx) as (b' & Hb' & Hr). exists b'. split; [now right|auto].
   Qed.
 
+  Lemma unscaled_err g N0 :
+    (exists er, to_ms_unscaled g N0 = Err er) -> exists er, to_ms_events g N0 = Err er.
+  Proof. intros [er H]. unfold to_ms_events. rewrite H. cbn. eauto. Qed.
+
   Theorem to_ms_refuses_linear g N0 d e :
     In d (g_demes g) -> In e (d_epochs d) -> e_sf e = "linear" ->
     exists err, to_ms_events g N0 = Err err.
   Proof.
-    intros Hd He Hsf. unfold to_ms_events.
+    intros Hd He Hsf. apply unscaled_err. unfold to_ms_unscaled.
     destruct (in_generations g) as [g'|er] eqn:Hg'; cbn [bind]; [|eauto]. cbv zeta.
     destruct (ingen_spec _ _ Hg') as (_ & _ & _ & _ & _ & _ & RD & _ & _).
     destruct (Forall2_in_l _ _ _ RD d Hd) as (d' & Hd' & _ & _ & _ & _ & _ & RE).
@@ -935,7 +940,7 @@ Section MsProofs.
     In p (g_pulses g) -> (2 <= List.length (p_srcs p))%nat ->
     exists err, to_ms_events g N0 = Err err.
   Proof.
-    intros Hp Hlen. unfold to_ms_events.
+    intros Hp Hlen. apply unscaled_err. unfold to_ms_unscaled.
     destruct (in_generations g) as [g'|er] eqn:Hg'; cbn [bind]; [|eauto]. cbv zeta.
     destruct (ingen_spec _ _ Hg') as (_ & _ & _ & _ & _ & _ & _ & _ & RP).
     destruct (Forall2_in_l _ _ _ RP p Hp) as (p' & Hp' & Es & _).
